@@ -524,6 +524,17 @@ func methodsAttack(rep int) *hx.Record { //nolint:funlen,gocyclo
 	try(0, "foreign", w.toks[1], 2)
 	try(0, "never-issued", w.tokenString(-1), 0)
 	try(3, "foreign", w.toks[0], 1) // instance of profile 2 created while open
+
+	// the same live tokens in other spellings: other strings, never issued
+	for k, sp := range spellings {
+		if (k+rep)%3 != 0 {
+			continue
+		}
+
+		try(0, "variant-of-own-live", spell(w.toks[0], sp), 1)
+		try(1, "variant-of-foreign-live", spell(w.toks[0], sp), 1)
+	}
+
 	// phase B: profile 1 closed (its instance 2 was created while open: the handle of that instance stays open)
 	w.insts[0].Close()
 	try(0, "closed", w.toks[0], 1)
